@@ -432,6 +432,79 @@ func VerifH_C11_relations() {
 	}
 }
 
+// VerifH_C11_relationErrors: a relation with a node, a way and a relation member; the
+// history of one of them is missing from the datasource: NoHistoryError carrying that
+// member's id, or, with IgnoreMissingChildren, no error and that member left
+// unannotated while the others are annotated.
+func VerifH_C11_relationErrors() {
+	missing := vRange("missingMember", 0, 2) // 0 node, 1 way, 2 relation
+	ignore := vRange("ignoreMissing", 0, 1) == 1
+	c := c11Time("memberCommitted")
+	pc := c11Time("parentCommitted")
+	vAssume(c <= pc)
+	ct, pt := time.Unix(c, 0), time.Unix(pc, 0)
+	ds := &c11FullDS{
+		nodes: map[osm.NodeID]osm.Nodes{1: {{ID: 1, Version: 3, Visible: true, ChangesetID: 31, Timestamp: ct, Committed: &ct}}},
+		ways:  map[osm.WayID]osm.Ways{2: {{ID: 2, Version: 4, Visible: true, ChangesetID: 41, Timestamp: ct, Committed: &ct}}},
+		rels:  map[osm.RelationID]osm.Relations{3: {{ID: 3, Version: 5, Visible: true, ChangesetID: 51, Timestamp: ct, Committed: &ct}}},
+	}
+	switch missing {
+	case 0:
+		delete(ds.nodes, 1)
+	case 1:
+		delete(ds.ways, 2)
+	case 2:
+		delete(ds.rels, 3)
+	}
+	r := &osm.Relation{ID: 7, Version: 1, Visible: true, ChangesetID: 70, Timestamp: pt, Committed: &pt,
+		Members: osm.Members{{Type: osm.TypeNode, Ref: 1}, {Type: osm.TypeWay, Ref: 2}, {Type: osm.TypeRelation, Ref: 3}}}
+	err := Relations(context.Background(), osm.Relations{r}, ds, IgnoreMissingChildren(ignore))
+	vReach("annotated")
+	ids := []osm.FeatureID{osm.NodeID(1).FeatureID(), osm.WayID(2).FeatureID(), osm.RelationID(3).FeatureID()}
+	if !ignore {
+		nh, ok := err.(*NoHistoryError)
+		vAssert(ok, "missing-history-typed-error")
+		if ok {
+			vAssert(nh.ID == ids[missing], "missing-history-error-carries-id")
+		}
+		return
+	}
+	vAssert(err == nil, "missing-history-ignored")
+	for i, m := range r.Members {
+		if i == missing {
+			vAssert(m.Version == 0 && m.ChangesetID == 0, "missing-member-left-unannotated")
+		} else {
+			vAssert(m.Version == 3+i && m.ChangesetID == osm.ChangesetID(31+10*i), "other-members-annotated")
+		}
+	}
+}
+
+type c11FullDS struct {
+	nodes map[osm.NodeID]osm.Nodes
+	ways  map[osm.WayID]osm.Ways
+	rels  map[osm.RelationID]osm.Relations
+}
+
+func (d *c11FullDS) NodeHistory(_ context.Context, id osm.NodeID) (osm.Nodes, error) {
+	if h, ok := d.nodes[id]; ok {
+		return h, nil
+	}
+	return nil, c11NotFound
+}
+func (d *c11FullDS) WayHistory(_ context.Context, id osm.WayID) (osm.Ways, error) {
+	if h, ok := d.ways[id]; ok {
+		return h, nil
+	}
+	return nil, c11NotFound
+}
+func (d *c11FullDS) RelationHistory(_ context.Context, id osm.RelationID) (osm.Relations, error) {
+	if h, ok := d.rels[id]; ok {
+		return h, nil
+	}
+	return nil, c11NotFound
+}
+func (d *c11FullDS) NotFound(err error) bool { return err == c11NotFound }
+
 // ---- pre-commit-time regime (no committed times: timestamps + threshold)
 
 const c11PreStart = int64(1104537600) // 2005-01-01
